@@ -84,7 +84,7 @@ func c20TypedNil(w *core.World, r *core.Report, scope map[*ssa.Function]bool) in
 							why = "a nil pointer constant"
 						}
 						if c, ok := o.(*ssa.Call); ok {
-							if g := c.Call.StaticCallee(); g != nil && g.Pkg != nil && strings.HasPrefix(g.Pkg.Pkg.Path(), core.Module) {
+							if g := c.Call.StaticCallee(); g != nil && g.Pkg != nil && strings.HasPrefix(core.PkgPath(g), core.Module) {
 								idx := 0
 								if ex, isEx := mi.X.(*ssa.Extract); isEx {
 									idx = ex.Index
@@ -184,7 +184,7 @@ func okGuarded(mi *ssa.MakeInterface) bool {
 	if boolIdx < 0 {
 		return false
 	}
-	for _, ret := range core.Returns(g) {
+	for _, ret := range forwardedReturns(g, 0) {
 		rv := core.ReturnValues(ret)
 		isNil := false
 		for _, o := range core.Origins(rv[ex.Index]) {
@@ -209,6 +209,38 @@ func okGuarded(mi *ssa.MakeInterface) bool {
 		}
 	}
 	return false
+}
+
+// forwardedReturns lists the returns that decide g's results: g's own, except that a return which hands on all the
+// results of one call of a repository function with the same number of results, in order (return h(...)), stands for
+// the returns of that function (a lookup delegating to a generic helper).
+func forwardedReturns(g *ssa.Function, depth int) []*ssa.Return {
+	var out []*ssa.Return
+	for _, ret := range core.Returns(g) {
+		var call *ssa.Call
+		fw := len(ret.Results) > 1
+		for i, rv := range ret.Results {
+			ex, ok := rv.(*ssa.Extract)
+			if !ok || ex.Index != i {
+				fw = false
+				break
+			}
+			c, ok := ex.Tuple.(*ssa.Call)
+			if !ok || (call != nil && call != c) {
+				fw = false
+				break
+			}
+			call = c
+		}
+		if fw && call != nil && depth < 3 {
+			if h := call.Call.StaticCallee(); h != nil && h.Blocks != nil && h.Signature.Results().Len() == len(ret.Results) && strings.HasPrefix(core.PkgPath(h), core.Module) {
+				out = append(out, forwardedReturns(h, depth+1)...)
+				continue
+			}
+		}
+		out = append(out, ret)
+	}
+	return out
 }
 
 // errGuarded: the pointer is the first result of 'p, err := g(...)', the conversion executes only on the err == nil
